@@ -43,7 +43,7 @@ def needsComplete : Pc → Op → Bool
 
 /-- Waiting on the event from inside `call_once` (the CAS was lost). -/
 def onceWaiter : Pc → Bool
-  | .wWant c | .wLockW c | .wLocked c | .enq c | .unl c _ | .susp c _ | .wokeNL c _ | .relk c _
+  | .wWant c | .wLockW c | .wLocked c | .wMustEnq c | .enq c | .unl c _ | .susp c _ | .wokeNL c _ | .relk c _
   | .wPass c => isOnce c
   | _ => false
 
@@ -104,6 +104,42 @@ macro "once_stepP" t:term : tactic => `(tactic| (
     | assumption
     | (intro u; grind [upd])
     | (rw [sumTo_upd_eq _ _ _ _ _ htn]; grind)
+    | grind [upd]))
+
+/-- A waiter that has read the loop condition `false` and is about to enqueue while the flag has
+    meanwhile become `true` is owed a `notify_all` (the setter that stored `true` has not yet
+    taken the lock, which the waiter holds). -/
+structure InvM (s : St) : Prop where
+  mustEnqOk : ∀ t c, s.pc t = .wMustEnq c → s.flag = true → 0 < ssum s
+
+theorem invM_init (n : Nat) : InvM (init n) := by
+  refine ⟨?_⟩; simp [init]
+
+set_option hygiene false in
+macro "once_stepM" t:term : tactic => `(tactic| (
+  simp only [step] at h
+  try unfold entry at h
+  try unfold wDone at h
+  try unfold sDone at h
+  obtain ⟨h1⟩ := hi
+  have hlk := hA.lockHolder
+  split at h
+  case isFalse => simp at h
+  rename_i hg
+  have htn : $t < s.n := by grind
+  have hleS := le_sumTo (f := fun u => setW (s.pc u)) htn
+  simp only [ssum] at h1
+  repeat' split at h
+  all_goals first | (simp at h; done) | skip
+  all_goals (
+    simp only [Option.some.injEq] at h
+    subst h
+    refine ⟨?_⟩ <;> dsimp only [ssum]
+  )
+  all_goals first
+    | assumption
+    | (intro u c; grind [upd])
+    | (rw [sumTo_upd_eq _ _ _ _ _ htn]; intro u c; grind [upd])
     | grind [upd]))
 
 end PikaVerif.Once
